@@ -155,7 +155,7 @@ CLAUSES = (
     rf"|(?:BLANK){SPACE}(WHEN{SPACE})?(?P<blank>ZERO|ZEROES|ZEROS)"
     r"|EXTERNAL(?![\w-])"
     r"|GLOBAL(?![\w-])"
-    rf"|(?:JUSTIFIED|JUST){SPACE}(?P<justified>RIGHT)?"
+    rf"|(?:JUSTIFIED|JUST)(?![\w-])(?:{SPACE}(?P<justified>RIGHT)(?![\w-]))?"
     rf"|(?:OCCURS){SPACE}(?:(?P<odo_minitems>\d+){SPACE}TO{SPACE})?(?P<odo_maxitems>\d+)(?:{SPACE}TIMES)?{SPACE}DEPENDING{SPACE}(?:ON{SPACE})?(?P<depending_on>{NAME})(?:{SPACE}{KEY})?"
     rf"|(?:OCCURS){SPACE}(?P<occurs_maxitems>\d+)(?:{SPACE}TIMES)?(?:{SPACE}{KEY})?"
     rf"|(?:PIC|PICTURE){SPACE}(?:IS{SPACE})?(?P<picture>\S+)"
